@@ -310,7 +310,7 @@ Theorem cache_hit_skips_prepare_present : forall (h : hostcfg) (c : cache) (r : 
   fst (resolve_prime (b_prime (h_b h)) (q_uri r, None)) = st ->
   cache_hit h c (sanitize r) (q_method r) (key_uri st) = Some sb ->
   serve present_parse h c r =
-  ((Ok (client_view (q_method r) (apply_range (sanitize r) sb)),
+  ((Ok (respond (q_method r) (sanitize r) 1 sb),
     snd (resolve_prime (b_prime (h_b h)) (q_uri r, None))
     ++ map (fun e => EPackage (fst e)) (b_package (h_b h)) ++ map (fun e => EPost (fst e)) (b_post (h_b h))), c).
 Proof. intros h c r st sb H1 H2. apply (cache_hit_skips_model present_parse h c r st sb H1 H2). Qed.
@@ -392,7 +392,7 @@ Theorem spec_serve_is : forall (line : bytes -> option parsed) (h : hostcfg) (c 
     stage_spec EPackage (b_package (h_b h)) pk /\
     stage_spec EPost (b_post (h_b h)) po /\
     match cache_hit h c (sanitize r) (q_method r) (key_uri st) with
-    | Some sb => out = ((Ok (client_view (q_method r) (apply_range (sanitize r) sb)), tr1 ++ pk ++ po), c)
+    | Some sb => out = ((Ok (respond (q_method r) (sanitize r) 1 sb), tr1 ++ pk ++ po), c)
     | None =>
         exists status body pref tr2 body' tr3,
           match sanitize r with
@@ -401,7 +401,7 @@ Theorem spec_serve_is : forall (line : bytes -> option parsed) (h : hostcfg) (c 
           | SanRange => (status, body, pref) = (416, [], 1) /\ tr2 = []
           end /\
           present_spec line (h_b h) (fst st) body body' tr3 /\
-          out = ((Ok (client_view (q_method r) (apply_range (sanitize r) (status, body'))), tr1 ++ tr2 ++ tr3 ++ pk ++ po),
+          out = ((Ok (respond (q_method r) (sanitize r) pref (status, body')), tr1 ++ tr2 ++ tr3 ++ pk ++ po),
                  cache_store h c (q_method r) (key_uri st) pref status body')
     end.
 Proof. intros. apply iff_refl. Qed.
@@ -463,13 +463,15 @@ Example run_order_nonvacuous :
               nv_edit 0 0 9 [] (PPrime (B "/a") (B "/b")) [] 0;
               nv_edit 5 0 0 (B "/c") PMark (B "!> x 1 &> y 2 3" ++ [10] ++ B "BODY") 1;
               nv_edit 6 0 0 (B "y") PMark [] 0;
+              nv_edit 5 0 0 (B "/s") PMark (B "!> y" ++ [10] ++ B "S") 3;
               nv_edit 3 0 2 [] PMark [] 0;
               nv_edit 3 1 2 [] PMark [] 0;
               nv_edit 4 0 7 [] PMark [] 0 ] in
   let o := {| o_cache := true; o_files := None |} in
   let get u := {| q_method := 0; q_uri := u; q_range := None |} in
   snd (scenario_model es o [get (B "/a?q=1"); get (B "/c"); {| q_method := 1; q_uri := B "/c"; q_range := None |};
-                            {| q_method := 0; q_uri := B "/c"; q_range := Some (1, 2) |}; get (B "/a/../c")]) =
+                            {| q_method := 0; q_uri := B "/c"; q_range := Some (1, 2) |}; get (B "/a/../c");
+                            {| q_method := 0; q_uri := B "/s"; q_range := Some (1, 2) |}; {| q_method := 1; q_uri := B "/s"; q_range := None |}]) =
   [ (* generated: Prime 9 rewrites /a?q=1 to /b, Prime 1 sees /b and rewrites to /c; path-bound Prepare; Present y; cached under /c *)
     (Ok (200, B "BODY"), [EPrime 9 (B "/a?q=1"); EPrime 1 (B "/b"); EPrepareSingle (B "/c") (B "/c");
                           EPresentInternal (B "y") [B "2"; B "3"]; EPackage 2; EPackage 1; EPost 7]);
@@ -478,7 +480,12 @@ Example run_order_nonvacuous :
     (Ok (200, []), [EPrime 9 (B "/c"); EPrime 1 (B "/c"); EPackage 2; EPackage 1; EPost 7]);
     (Ok (206, B "OD"), [EPrime 9 (B "/c"); EPrime 1 (B "/c"); EPackage 2; EPackage 1; EPost 7]);
     (* unsafe path: no Prepare; Package and Post all the same *)
-    (Ok (400, []), [EPrime 9 (B "/a/../c"); EPrime 1 (B "/a/../c"); EPackage 2; EPackage 1; EPost 7]) ]
+    (Ok (400, []), [EPrime 9 (B "/a/../c"); EPrime 1 (B "/a/../c"); EPackage 2; EPackage 1; EPost 7]);
+    (* a streamed answer (future): Present on the body before the stream, no range, never cached *)
+    (Ok (200, B "S+streamed"), [EPrime 9 (B "/s"); EPrime 1 (B "/s"); EPrepareSingle (B "/s") (B "/s"); EPresentInternal (B "y") [];
+                                EPackage 2; EPackage 1; EPost 7]);
+    (Ok (200, []), [EPrime 9 (B "/s"); EPrime 1 (B "/s"); EPrepareSingle (B "/s") (B "/s"); EPresentInternal (B "y") [];
+                    EPackage 2; EPackage 1; EPost 7]) ]
   /\ host_desc (behaviours_of (pconfig_build model_step es)).
 Proof.
   intros es o get. split; [vm_compute; reflexivity|].
